@@ -213,5 +213,20 @@ def run(chk, tier):
                     chk.expect(len(fin) == 1 and not unwraps, "pdata-finish", short, f"{nm}@send_pdata", "finish() called, no unwrap on the writer's results",
                                {"finish": len(fin), "unwraps": len(unwraps)}, loc=f"{h['loc']['f']}:{x[1]}")
     chk.floor("pdata-finish", "send_pdata writer bindings", n_pd, 2)
+    # ---------- rule 4: no bare Write::write (short writes must be retried: write_all, or a loop comparing the count)
+    chk.rule("no-bare-write", "library code never calls io::Write::write directly (a short write would be taken for a full one); it uses write_all / write! — "
+             "except inside an `impl Write` whose own `write` forwards the partial-write contract")
+    n_scanned = 0
+    for cn, kind in LIB_CRATES + [("dicom_core", None), ("dicom_pixeldata", None)]:
+        dd = fx.crate(cn, kind)
+        for h in dd["hir"]:
+            n_scanned += 1
+            is_write_impl = re.search(r" as std::io::Write>::write$", h["path"]) is not None or h["path"].endswith("::poll_write")
+            for c, x in H.calls(h["body"]):
+                if c == "std::io::Write::write":
+                    short = h["path"].split("::")[-2] + "::" + h["path"].split("::")[-1]
+                    chk.expect(is_write_impl, "no-bare-write", short, f"write@{H.show(x[4], 2) if H.kind(x) == 'mcall' else '?'}", "write_all / write! (or an impl Write forwarding the count)",
+                               f"bare Write::write at line {x[1]}", loc=f"{h['loc']['f']}:{x[1]}")
+    chk.floor("no-bare-write", "HIR bodies scanned", n_scanned, 3000)
     chk.undecided.append("which operation fails at which point (fault enumeration); errors swallowed inside third-party crates; flate2 writes its final block on drop "
                          "(DataRWAdapter returns Box<dyn Write> and offers no finish): design limitation recorded in DESIGN.md")
